@@ -185,6 +185,14 @@ def gen_tasks(tier, seed):
                 nf = nf_arb
                 kw = {"k": 1, "weight_type": "int"}
             tasks.append({**base, "node_flow": nf, "kwargs": dict(kw)})
+            inner_c = [v for v in G.nodes() if G.in_degree(v) > 0 and G.out_degree(v) > 0]
+            if inner_c and not flowy and not cls.startswith("Min"):
+                v, w = rng.choice(inner_c), rng.choice(inner_c)
+                tasks.append({**base, "node_flow": nf, "starts": [v], "ends": [], "kwargs": {**kw, "additional_starts": [v]}})
+                tasks.append({**base, "node_flow": nf, "starts": [], "ends": [w], "kwargs": {**kw, "additional_ends": [w]}})
+            if inner_c and cls == "MinPathCoverCycles":
+                w = rng.choice(inner_c)
+                tasks.append({**base, "node_flow": nf, "starts": [], "ends": [w], "kwargs": {**kw, "additional_ends": [w]}})
             v1 = rng.choice([v for v in G.nodes()])
             if nf is None or any(x for v, x in nf.items() if v != v1 and x):
                 if not flowy:
